@@ -229,6 +229,10 @@ func c02Jobs(tier string) []string {
 		add(EnumWorlds(bases, 0, 0), "e0p", "decK4")
 		add(EnumWorlds(bases, 1, 0)[2:], "e0p", "plainK4")
 		add(EnumWorlds([]string{"W0"}, 1, 0)[1:], "e0p", "decK2")
+		// abstract types below object fields: decorations (named fragments used twice, aliases, ...) on 3-field operations
+		for _, w := range []string{"W0+union-under-object", "W0+entity-node-typed-field", "Wmin+union-under-object", "W0+interface-entities", "W0+value-type-entity-ref"} {
+			jobs = append(jobs, w+"|e0p|decK3")
+		}
 		add(EnumWorlds([]string{"W0"}, 2, 0)[len(EnumWorlds([]string{"W0"}, 1, 0)):], "e0p", "plainK3")
 		add(EnumWorlds(bases, 0, 0), "s0p", "plainK4")
 		return jobs
